@@ -2,3 +2,5 @@ import BedVerif.Basic
 import BedVerif.Model.Lapper
 import BedVerif.Model.GMap
 import BedVerif.Spec.Lapper
+import BedVerif.Lemmas.FastCover
+import BedVerif.Props.C18Fast
